@@ -109,8 +109,9 @@ class T1TSilicon(object):
 class T1TLayout(object):
     """Well-formed Type 1 Tag layout (reference model)."""
 
-    def __init__(self, size, prefix_tlvs, terminator=True, cc_ver=0x10, cc_access=0x00):
+    def __init__(self, size, prefix_tlvs, terminator=True, cc_ver=0x10, cc_access=0x00, physical=None):
         self.size = size                      # (CC2+1)*8, 120 for static
+        self.physical = physical or size      # the capability container may declare less than the chip has
         self.dynamic = size > 120
         self.cc = bytes([0xE1, cc_ver, size // 8 - 1, cc_access])
         self.base_reserved = set(range(104, 128 if self.dynamic else 120))
@@ -160,8 +161,8 @@ class T1TLayout(object):
         return set(a for a in range(self.ndef_offset, self.end) if a not in self.reserved)
 
     def image(self, message, filler, uid=b"\x01\x02\x03\x04\x05\x06\x07"):
-        mem = bytearray(self.size)
-        for a in range(8, self.size):
+        mem = bytearray(self.physical)
+        for a in range(8, self.physical):
             mem[a] = filler(a)
         mem[0:7] = uid
         mem[7] = 0
